@@ -30,8 +30,7 @@ def r1(ctx, prog):
         ok = bool(hit)
         for q in hit:
             pts = cfg.reach([q])
-            rets = [cfg.elem_at(p) for p in pts if cfg.elem_at(p) is not None and f.nodes[cfg.elem_at(p)]["k"] == "ReturnStmt"]
-            ok = ok and all(f.cv(f.nodes[r].get("val", -1)) == 0 for r in rets) and cfg.pt(fre[0]) not in pts
+            ok = ok and rl.returns_only(f, q, 0) and cfg.pt(fre[0]) not in pts
         ctx.check(R, ok, f.where(), "a refused re-arm returns false and frees nothing", key="C08.R1:refused")
     ctx.floor(R, 6)
 
